@@ -56,7 +56,9 @@ func newPeerCommand(action peerAction, address string, id string) *peerCommand {
 // U<address>,<8-byte-id>  to unregister
 // If we don't have an ID, then it's old-format Refinery and we just ignore it.
 func (p *peerCommand) unmarshal(msg string) bool {
-	idx := strings.Index(msg, ",")
+	// the ID is the last field and never contains a comma, but the address may
+	// (it is built from the configured identifier), so split at the last comma
+	idx := strings.LastIndex(msg, ",")
 	if len(msg) < 2 || idx == -1 {
 		return false
 	}
